@@ -348,7 +348,8 @@ def check_dependencies(graph, suite_path, phase):
                     # branch-specific state names of clones
                     if branch and expected:
                         from travsim.harness import read_objects
-                        mine = [o for o in read_objects(n.params) if o["vm"] == vm and o["type"] == typ]
+                        from travsim.harness import permanent_vms
+                        mine = [o for o in read_objects(n.params, permanent_vms(n)) if o["vm"] == vm and o["type"] == typ]
                         if mine and mine[0]["get_state"] != expected[0][1]:
                             out.append(V("C07", "clone-state", f"a clone of {label(n)} does not start from its producer's state",
                                          phase=phase, got=mine[0]["get_state"], want=expected[0][1]))
